@@ -23,6 +23,7 @@ func checkC02(p *Prog, r *Report) {
 	mineralBooks(p, r, "C02.R9")
 	nmoveSweeps(p, r, "C02.R10")
 	c02Inputs(p, r, "C02.R11")
+	parallelArrays(p, r, "C02.R14")
 	uptakeReset(p, r, "C02.R12")
 	denitrBalance(p, r, "C02.R13")
 }
